@@ -360,6 +360,22 @@ def run(tier, seed):
                        "for operands beyond 2^15 an inexact result or an error is accepted, a different exact number is not"]
     ctx.observed["grid_size"] = len(g)
     cases = core.mine(build_cases(ctx, tier, g))
+    if core.PART_I == 0:
+        # a floor-quotient directly followed by a floor-remainder of operands that are numerically equal to the quotient's but differ in exactness (7 and 7.0,
+        # 1/2 and 0.5, 0 and -0.0), and the other way round: each call computes from its own operands
+        from fractions import Fraction as _F
+
+        def val(x):
+            return x if isinstance(x, _F) else _F(x.value) if x.value == x.value and abs(x.value) != float("inf") else None
+        vals = [val(x[1]) for x in g]
+        twins = [(i, j) for i in range(len(g)) for j in range(len(g)) if i != j and vals[i] is not None and vals[i] == vals[j] and ref_num.is_exact(g[i][1]) != ref_num.is_exact(g[j][1])]
+        adj = []
+        for (i, i2) in twins:
+            for (j, j2) in twins + [(k, k) for k in range(0, len(g), 7)]:
+                adj += [("floor-quotient", [i, j]), ("floor-remainder", [i2, j2])]
+        ctx.rng.shuffle(twins)
+        ctx.observed["adjacent_twin_cases"] = len(adj)
+        cases = adj[:6000] + cases
     rcases = random_cases(ctx, 20000 if tier == "quick" else core.share(2000000))
     legs = ["dev", "release"]
     for leg in legs:
